@@ -21,16 +21,16 @@ const c14LastScaleIdle = "idle-ignores-last-scale"
 func checkC14(c *Ctx) int {
 	run := ev.NewRun("C14", c.Tier, "model_checking")
 	t0 := time.Now()
-	g := lmm.NewGeom(c.Seed, true)
+	g := lmm.NewGeomKind(c.Seed, true, true)
 	l1, l2 := g.Downres()
 	type layout struct {
 		name   string
 		initSV []uint64
 		ops    int
 	}
-	layouts := []layout{{"small6/A", []uint64{1, 1, 2, 2, 3, 0}, 2}, {"small6/C", []uint64{5, 2, 2, 5, 2, 9}, c.pick(1, 2)}}
+	layouts := []layout{{"small7/A", []uint64{1, 1, 2, 2, 3, 0, 4}, c.pick(1, 2)}, {"small7/C", []uint64{5, 2, 2, 5, 2, 9, 0}, c.pick(1, 2)}}
 	if c.thorough() {
-		layouts = append(layouts, layout{"small6/D", []uint64{3, 3, 3, 3, 0, 3}, 3})
+		layouts = append(layouts, layout{"small7/D", []uint64{3, 3, 3, 3, 0, 3, 3}, 2})
 	}
 	var states, trans, edges, levelReads, restarts int64
 	for _, lo := range layouts {
